@@ -282,6 +282,20 @@ def run_integrate(case, r):
                     if not okl:
                         break
                 r.check(okl, cellbase + "/linearity", "integrate is additive and homogeneous in the data", shape=shape, factors=fac, geom=gname)
+            # the same kind of data stored as integers / booleans (counts, labels, masks): the integral is
+            # the weighted sum of the VALUES, per time step and component, whatever the storage type
+            if as_image in (False, True):
+                k_ = np.arange(n).reshape(full)
+                for dt_, vals_ in (("uint8", (k_ * 7 + 3) % 11), ("int32", (k_ * 5) % 7 - 3), ("bool", (k_ * 3 + k_ // 2) % 3 == 0)):
+                    xd = vals_.astype(dt_)
+                    want_d = np.zeros(ps) if ps else 0.0
+                    evb = ev.reshape(ev.shape + (1,) * len(ps))
+                    want_d = np.sum((evb * xd.astype(float)).reshape((-1,) + ps), axis=0) if ps else float(np.sum(ev * xd.astype(float)))
+                    try:
+                        got_d = g.integrate(wrap(xd.copy(), shape, payload, as_image))
+                        r.check(close(got_d, want_d, max(rtol, 1e-12)), cellbase + "/integer-or-bool-data", "integer- and boolean-typed data integrate to the weighted sum of their values in the slot of each time step and component", dtype=dt_, container="Image" if as_image else "ndarray", shape=shape, factors=fac, geom=gname, got=got_d, want=want_d)
+                    except Exception as e:  # noqa: BLE001
+                        r.fail(cellbase + "/integer-or-bool-data", "integer- and boolean-typed data can be integrated", dtype=dt_, container="Image" if as_image else "ndarray", exception=repr(e)[:300], geom=gname, wform=wform)
             r.nontriv((gname, wform, shape, payload, res, fac, as_image))
     r.outcome((gname, wform, shape, payload, float(np.sum(effvol))))
 
